@@ -33,7 +33,7 @@ func ZZ_C20_labels() {
 		if i >= n {
 			break
 		}
-		k := nondet.String("key"+strconv.Itoa(i), "foo", "tic", "a.b/c", "a_b_c", "extendeddaemonset.datadoghq.com/name", "app-x", "a1", "a.c")
+		k := nondet.String("key"+strconv.Itoa(i), "foo", "tic", "a.b/c", "a_b_c", "extendeddaemonset.datadoghq.com/name", "app-x", "a1", "a.c", "name", "namespace")
 		if _, dup := labels[k]; dup {
 			nondet.Assume(false)
 		}
